@@ -17,7 +17,13 @@
 //!       c07_subset/syn.rs (subroutines, Font DICTs, operands on every number-encoding boundary), read from
 //!       OpenType and, for a sample, re-wrapped as WOFF and WOFF2 by the harness's own writers, x glyph
 //!       id lists from patterns -> `subset::subset` / `subset::prince::subset`.
+//!       Round 3: the glyf font of a replayed case is written under the representation the case names
+//!       (c07_subset/rep.rs: numberOfContours of composites, loca forms, zero-contour records, flag encodings,
+//!       unsorted directory); record also runs the size-boundary fonts of c07_subset/sizes.rs with their
+//!       solver-chosen lists (tallies `size:` / `ladder:` / `count:` from the plan, `measured:` from the output),
+//!       solver-chosen lists on repository CFF fonts and three repository glyf fonts re-encoded by rep::reencode.
 //!   c07_subset probe          lists the repository fonts with their classification
+//!   c07_subset sizes [thorough]   lists the size-boundary fonts, their lists and predictions
 //!
 //! Events:
 //!  {"ev":"Subset","a":{"kind","api","n_src","ids"},
